@@ -541,12 +541,21 @@ def _check_files(plan, tag, out, V, neigh, sp, valid, ns, nap, od, res, chunk, n
                 med = np.nanmedian(traces[rows], axis=0)
         if i >= templates.shape[0] or not np.array_equal(templates[i], med.astype(np.float32), equal_nan=True):
             raise Violation("C13.W2", f"{sigbase}:template", f"templates[{i}] is not the NaN-median of unit {u}'s rows {ctx}")
-    # W4 (history): every row stored exactly once
-    stored = [r_ for (_, rows) in res["mm"] for r_ in rows]
-    if sorted(stored) != list(range(nwf)):
-        dup = sorted({x for x in stored if stored.count(x) > 1})[:5]
-        miss = sorted(set(range(nwf)) - set(stored))[:5]
-        raise Violation("C13.W4", f"{sigbase}:rows-stored-once", f"memmap rows stored: {len(stored)} stores for {nwf} rows; duplicated {dup}, never stored {miss} {ctx}")
+    # W4 (history): the store history must be free of conflicts between tasks.  Two different chunk tasks storing
+    # different contents into one row is a lost-update hazard: nothing orders the tasks, so some schedule ends with
+    # either content (the result then depends on worker count / scheduling even if this schedule happened to end well).
+    # Repeated stores by one task, or identical contents from several tasks, are harmless and not counted.
+    per_row = {}
+    for ent in res["mm"]:
+        wt, rows, digs = ent[0], ent[1], (ent[2] if len(ent) > 2 else [None] * len(ent[1]))
+        for r_, dg in zip(rows, digs):
+            per_row.setdefault(r_, []).append(((wt[1] if wt else None), dg))
+    for r_, lst in sorted(per_row.items()):
+        last_by_task = {}
+        for t_, dg in lst:
+            last_by_task[t_] = dg
+        if len(last_by_task) > 1 and len(set(last_by_task.values())) > 1:
+            raise Violation("C13.W4", f"{sigbase}:conflicting-stores", f"memmap row {r_} was stored by chunk tasks {sorted(last_by_task, key=str)} with different contents (unordered tasks: the final content depends on the schedule) {ctx}")
     # W5: the loader returns what was saved
     wl = wfx.WaveformsLoader(od)
     w_all = wl.load_waveforms(return_info=False)
@@ -581,7 +590,7 @@ def _check_files(plan, tag, out, V, neigh, sp, valid, ns, nap, od, res, chunk, n
     if tag == "sim" and n_jobs > 1:
         nonempty = len(res["mm"])
         if nonempty >= 2:
-            order = [t for (wt, rows) in res["mm"] for t in [wt[1] if wt else None]]
+            order = [t for ent in res["mm"] for t in [ent[0][1] if ent[0] else None]]
             cclass = "s" if chunk < 1000 else "m" if chunk < 4000 else "l"
             stats["distinct"].append(f"{digest(order)}|{n_jobs}|{cclass}")
             if order and order[0] == max(order):
